@@ -13,6 +13,7 @@ Driver for C06.  Values as in `Drivers/C04.lean` (`{"n":..}`, `{"nf":..}`, `{"s"
 * `{"op":"opttell","policy":P,"max_failures":n,"n_init":k,"prev":[null|rat..],"ys":[null|rat..],"scaled":[rat..]}`
   -> `Optimizer.tell` used directly: error kind (`exhausted`, `markerToSurrogate`, ..) or the fit input
 * `{"op":"regevo","cap":n,"items":[[id,V]..]}` -> ids in the population
+* `{"op":"cache","ops":[..]}` -> the constant-liar ask cache over a sequence of Optimizer / CBO calls
 -/
 
 open Lean DH.Wire DH.Dump DH.Failures
@@ -104,7 +105,16 @@ def handle (j : Json) : Except String Json := do
     let out ← jVal (← field j "out")
     match standardizeOutput out with
     | .error e => return Json.mkObj [("ok", true), ("err", stdErrName e)]
-    | .ok (o, _) => return Json.mkObj [("ok", true), ("err", Json.null), ("objective", ofVal (onDoneObjective o))]
+    | .ok (o, _) =>
+      -- `stored`: the "out" entry of the storage; `other`: the objective of the job another evaluator on
+      -- the same search rebuilds from it (null = not reported; {"err":..} = `set_output` raises)
+      let d := onDoneStore o
+      let other := match otherObjective d.stored with
+        | .ok (some v) => Json.mkObj [("seen", ofVal v)]
+        | .ok none => Json.null
+        | .error e => Json.mkObj [("err", stdErrName e)]
+      return Json.mkObj [("ok", true), ("err", Json.null), ("objective", ofVal d.job), ("stored", ofVal d.stored),
+        ("other", other)]
   | "tell" =>
     let p ← jPolicy (← field j "policy")
     let objs ← jList jVal (← field j "objs")
@@ -166,6 +176,43 @@ def handle (j : Json) : Except String Json := do
     | .ok (st', fit) =>
       return Json.mkObj [("ok", true), ("err", Json.null), ("n_init", Json.num (JsonNumber.fromInt st'.nInit)),
         ("fit", match fit with | some f => ofRats f | none => Json.null)]
+  | "cache" =>
+    -- ops: {"k":"opt_ask","key":s,"single":b} | {"k":"opt_reset"} | {"k":"cbo_ask","key":s,"single":b}
+    --      | {"k":"cbo_tell","policy":P,"objs":[V..]}
+    -- batches are numbered by the moment they are computed: 2*i for the batch computed by the ask at op i,
+    -- 2*i+1 for the single point computed by a tell / update_next at op i (also the one inside CBO.ask),
+    -- 0 for the point the sequence starts with.  Reply per ask: that number, and whether it was cached.
+    let ops ← (← field j "ops").getArr?
+    let mut c : AskCache String Nat := AskCache.init 0
+    let mut out : List Json := []
+    let mut i : Nat := 1
+    for o in ops.toList do
+      let k ← (← field o "k").getStr?
+      match k with
+      | "opt_ask" =>
+        let key ← (← field o "key").getStr?
+        let single ← (← field o "single").getBool?
+        let (c', b, hit) := optAsk c single key (2 * i)
+        c := c'
+        out := out ++ [Json.mkObj [("from", Json.num (JsonNumber.fromNat b)), ("hit", hit)]]
+      | "cbo_ask" =>
+        let key ← (← field o "key").getStr?
+        let single ← (← field o "single").getBool?
+        let (c', b, hit) := cboAsk c single key (2 * i) (2 * i + 1)
+        c := c'
+        out := out ++ [Json.mkObj [("from", Json.num (JsonNumber.fromNat b)), ("hit", hit)]]
+      | "opt_reset" =>
+        c := optReset c (2 * i + 1)
+        out := out ++ [Json.null]
+      | "cbo_tell" =>
+        let p ← jPolicy (← field o "policy")
+        let objs ← jList jVal (← field o "objs")
+        let told := match cboTell p objs with | .ok (_ :: _) => true | _ => false
+        c := cboTellCache c told (2 * i + 1)
+        out := out ++ [Json.mkObj [("told", told)]]
+      | _ => throw s!"unknown cache op {k}"
+      i := i + 1
+    return Json.mkObj [("ok", true), ("asks", Json.arr out.toArray)]
   | "regevo" =>
     let cap ← (← field j "cap").getNat?
     let items ← (← field j "items").getArr?
